@@ -9,7 +9,7 @@ import subprocess
 import time
 
 
-def make_replay(root, repo, pid, P, failures, unit_results, seed):
+def make_replay(root, repo, pid, P, failures, unit_results, seed, undecided=None):
     outdir = os.path.join(root, "out", "replay")
     os.makedirs(outdir, exist_ok=True)
     path = os.path.join(outdir, "%s-%d.json" % (pid, int(time.time())))
@@ -24,6 +24,7 @@ def make_replay(root, repo, pid, P, failures, unit_results, seed):
         witness=witness,
         searcher=searcher,
         searcher_log=search_log[-4000:],
+        undecided=undecided or [],
         note=("witness found by the replay searcher on the real code" if witness else
               "no-failing-input-found: the verifier gives no model; the failed obligation(s) above were discharged on the unchanged tree"),
         generated_files=[r.gen_path for r in unit_results],
